@@ -235,6 +235,20 @@ impl<'a> Cx<'a> {
                 self.un(format!("path `{}` is neither a local, a place, a known constant nor a unit enum variant", segs.join("::")))
             }
             Expr::Field(f) => {
+                // a closure handed to the call mechanism: `c.function.arity`, `c.function.chunk.code.as_ptr()` (the latter as a method call below)
+                if self.vm_mode {
+                    if let Expr::Field(inner) = &*f.base {
+                        if let (syn::Member::Named(a), syn::Member::Named(b)) = (&inner.member, &f.member) {
+                            if a == "function" && b == "arity" {
+                                if let Ok(c) = self.expr(&inner.base, None) {
+                                    if c.ty == LT::ClosureRec {
+                                        return Ok(Tx { pre: c.pre, term: format!("({}).arity", c.term), ty: LT::I("usize") });
+                                    }
+                                }
+                            }
+                        }
+                    }
+                }
                 if let Some(p) = self.path_of(e) {
                     let v = self.place(&p)?;
                     return Ok(pure(v.lean, v.ty));
